@@ -837,8 +837,16 @@ def check_paired_buffer(ctx, R, classes):
                     evs = st.events
                     if not _normal(evs, status):
                         continue
-                    sd = [_kind_class(e) for e in evs if e.kind in ('ST', 'TK') and e.a == d]
-                    sm = [_kind_class(e) for e in evs if e.kind in ('ST', 'TK') and e.a == m]
+                    def kc(i_, e):
+                        k_ = _kind_class(e)
+                        # a removal under `if key in self.<f>:` is, like pop(key, default), a take only when the key is there
+                        if k_ == 'take' and e.kind == 'TK' and e.c in ('pop', 'del') and any(
+                                x.kind == 'COND' and x.b is True and isinstance(x.a, str) and x.a.replace(' ', '').endswith('inself.' + e.a)
+                                for x in evs[:i_]):
+                            return 'take?'
+                        return k_
+                    sd = [kc(i_, e) for i_, e in enumerate(evs) if e.kind in ('ST', 'TK') and e.a == d]
+                    sm = [kc(i_, e) for i_, e in enumerate(evs) if e.kind in ('ST', 'TK') and e.a == m]
                     sd = [k for k in sd if k]
                     sm = [k for k in sm if k]
                     if not sd and not sm:
@@ -1032,7 +1040,36 @@ def check_single_consumer(ctx, R, classes):
                     elif isinstance(n, ast.Call) and isinstance(n.func, ast.Name):
                         # the bound method handed to a module-level helper which schedules its parameter
                         sites.extend((fn, n) for _ in range(_helper_schedules(ctx.model, fn, n, drain.name)))
+            # the constructor, on its event paths (a private base constructor called explicitly, a base helper that receives the
+            # bound method as `callback=self.cb`, module-level helpers: all spliced, parameters mapped back to the caller)
+            init_fn = cls.find('__init__')
+            if init_fn is not None and init_fn.cls is not None and not any(fn.name == '__init__' for fn, n in sites):
+                from ..paths import caller_expr
+                best = 0
+                node_hit = None
+                try:
+                    ipaths = ctx.paths(init_fn, cls, depth=6, no_inline=('_set_asynchronous', '_set_loop', '_check_end', 'start', '_get_com'))
+                except AnalysisError:
+                    ipaths = []
+                for st, status in ipaths:
+                    k = 0
+                    evs = st.events
+                    for i, e in enumerate(evs):
+                        cn = (e.x or {}).get('node') if e.kind in ('CALL', 'DEFER') else None
+                        if isinstance(cn, ast.Call) and isinstance(cn.func, ast.Attribute) and cn.func.attr in SCHED_PRIMS:
+                            for a in cn.args:
+                                a2 = caller_expr(evs, i, a) if isinstance(a, ast.Name) else a
+                                if a2 is not None and _refs_method(a2, drain.name):
+                                    k += 1
+                                    node_hit = cn
+                    best = max(best, k)
+                sites.extend((init_fn, node_hit) for _ in range(best))
             if not sites:
+                continue
+            # a coroutine that is scheduled together with arguments (add_callback(self._produce, x, future)) is a job for one
+            # element, not the consumer of a queue
+            if all(n is not None and len(getattr(n, 'args', ())) > 1 and isinstance(n.func, ast.Attribute) and n.func.attr in SCHED_PRIMS
+                   for fn, n in sites):
                 continue
             con = ctx.construct(drain)
             # helper indirection: a site inside a helper counts at each of the helper's callers
@@ -1096,6 +1133,9 @@ def check_single_consumer(ctx, R, classes):
                 ended = None
                 for st, status in ctx.paths(drain, cls):
                     if status in ('next', 'return'):
+                        # (a consumer that ends because its node was stopped - a test of the stop flag - ends legitimately)
+                        if any(e.kind == 'COND' and isinstance(e.a, str) and ('stopped' in e.a or 'is_set' in e.a) for e in st.events[-6:]):
+                            continue
                         ended = st.events
                 R.ob('SINGLE-CONSUMER', con, 'consumer-never-ends', ended is None,
                      'the consumer %s is scheduled once, at construction, but can terminate: what is queued then, and everything '
@@ -1638,8 +1678,14 @@ def check_tick_period(ctx, R, classes):
                         for t in (x.targets if isinstance(x, ast.Assign) else [x.target]):
                             if self_field(t) == 'interval' and isinstance(t, ast.Attribute):
                                 writers.append((f2, x))
-        ok = len(writers) == 1 and writers[0][0] is init and isinstance(writers[0][1], ast.Assign) \
-            and nf(writers[0][1].value) == 'convert_interval(interval)' and 'interval' in init.params()
+        ok = len(writers) == 1 and writers[0][0] is init and isinstance(writers[0][1], ast.Assign) and 'interval' in init.params()
+        if ok:
+            # the stored value on the constructor's normal form (a named intermediate is transparent)
+            from .dasksib import _ctor_fields
+            try:
+                ok = _ctor_fields(M, cls, init).get('interval') == ['convert_interval(interval)']
+            except AnalysisError:
+                ok = nf(writers[0][1].value) == 'convert_interval(interval)'
         R.ob('TICK-PERIOD', ctx.construct(init), 'interval-field', ok,
              'self.interval is not exactly convert_interval(<constructor argument interval>), written once in __init__',
              ctx.where(init, init.node.lineno))
